@@ -38,6 +38,18 @@ class Explorer:
         self._spec_cache = {}
         self._index_loops(self.finfo.node, None)
 
+    def finding_region(self, name):
+        if not self.c.findings:
+            return None
+        base = name
+        if base not in self.c.findings:
+            return None
+        from .driver import load_known_findings
+        for k in load_known_findings():
+            if k.get("status", "open") == "open" and k.get("unit") == self.c.fq and k.get("obligation") == base:
+                return self.c.findings[base]
+        return None
+
     def note_trivial(self, name):
         self.trivial_names[name] = self.trivial_names.get(name, 0) + 1
 
@@ -326,9 +338,11 @@ class Explorer:
         for a in node.args:
             if isinstance(a, ast.Starred):
                 s = run.ev(a.value, fr)
-                if not isinstance(s, VTuple):
-                    raise EngineError(f"*args call with non-static sequence (line {node.lineno})")
-                args.extend(s.items)
+                if isinstance(s, VTuple):
+                    args.extend(s.items)
+                else:
+                    # *seq with a symbolic sequence: may only flow into the callee's *args parameter
+                    args.append(Conc(("starseq", ops.iter_to_seq(run, s, node))))
             else:
                 args.append(run.ev(a, fr))
         kwargs = {}
@@ -412,10 +426,22 @@ class Explorer:
         bound = {}
         if len(args) > len(names) and a.vararg is None:
             raise EngineError(f"too many positional arguments for {finfo.qualname}")
+        stars = [i for i, v in enumerate(args) if isinstance(v, Conc) and isinstance(v.obj, tuple) and v.obj[0] == "starseq"]
+        if stars and (a.vararg is None or stars[0] < len(names)):
+            raise EngineError(f"*seq argument does not flow into *args of {finfo.qualname}")
         for n, v in zip(names, args):
             bound[n] = v
         if a.vararg is not None:
-            bound[a.vararg.arg] = VTuple(args[len(names):])
+            rest = args[len(names):]
+            if stars:
+                vty = None
+                for v in rest:
+                    if isinstance(v, Conc):
+                        vty = v.obj[1].ty
+                parts = [v.obj[1].t if isinstance(v, Conc) else z3.Unit(run.coerce(v, vty.elem).t) for v in rest]
+                bound[a.vararg.arg] = Val(vty, z3.Concat(*parts) if len(parts) > 1 else parts[0])
+            else:
+                bound[a.vararg.arg] = VTuple(rest)
         for k, v in kwargs.items():
             if k in bound:
                 raise EngineError(f"duplicate argument {k}")
